@@ -1330,6 +1330,10 @@ class SharedSpaceOperations:
 
     def get_relative_interface(self, parent, base):
 
+        if base.interface._impl.model is not self.model:
+            # Found by its dotted name, it would be an object of this model
+            return False, base.interface
+
         basespace = base.parent.idstr
         basevalue = base.interface._impl.idstr
 
@@ -1592,9 +1596,11 @@ class SpaceManager(SharedSpaceOperations):
                         if bases.index(definer) < bases.index(space):
                             # Derived from a nearer definition
                             continue
-                subvalue = self._graph.get_relative(
-                    subspace.idstr, space.idstr,
-                    basevalue)
+                subvalue = None
+                if value._impl.model is self.model:
+                    subvalue = self._graph.get_relative(
+                        subspace.idstr, space.idstr,
+                        basevalue)
                 if (not subvalue
                         or self.model.get_impl_from_name(subvalue) is None):
                     raise ValueError(
@@ -1624,8 +1630,10 @@ class SpaceManager(SharedSpaceOperations):
                 if sub is not space and i < bases.index(space):
                     break   # Derived from a nearer definition already
                 if ref.refmode == "relative" and ref.has_interface():
-                    subvalue = self._graph.get_relative(
-                        sub.idstr, b.idstr, ref.interface._impl.idstr)
+                    subvalue = None
+                    if ref.interface._impl.model is self.model:
+                        subvalue = self._graph.get_relative(
+                            sub.idstr, b.idstr, ref.interface._impl.idstr)
                     if (not subvalue or
                             self.model.get_impl_from_name(subvalue) is None):
                         raise ValueError(
@@ -1946,8 +1954,10 @@ class SpaceUpdater(SharedSpaceOperations):
                 if (sname == node or ref.refmode != "relative"
                         or not ref.has_interface()):
                     continue
-                subvalue = self._graph.get_relative(
-                    node, sname, ref.interface._impl.idstr)
+                subvalue = None
+                if ref.interface._impl.model is self.model:
+                    subvalue = self._graph.get_relative(
+                        node, sname, ref.interface._impl.idstr)
                 if not subvalue or not self._will_exist(subvalue):
                     raise ValueError(
                         "Relative reference %s.%s out of scope" %
@@ -1997,6 +2007,12 @@ class SpaceUpdater(SharedSpaceOperations):
 
         node = space.idstr
         basenodes = [base.idstr for base in bases]
+
+        for base in bases:
+            if base.model is not self.model:
+                # Found by its dotted name, it would be another space
+                raise ValueError(
+                    "Base '%s' is in another model" % base.get_fullname())
 
         for base in [node] + basenodes:
             if base not in self.manager._graph:
